@@ -593,6 +593,14 @@ class RangeIter:
         return out
 
 
+@model(r'<(?:std::ops::|core::ops::|ops::)?Range<\w+> as (?:std::iter::)?ExactSizeIterator>::len|(?:core::iter::range::)?<impl (?:std::iter::)?ExactSizeIterator for (?:std::ops::)?Range<\w+>>::len')
+def range_len(ex, args):
+    r = deref(args[0]); a, b = r.f[0], r.f[1]
+    d = simp(zint(b) - zint(a)) if is_sym(a) or is_sym(b) else b - a
+    if is_sym(d): return simp(z3.If(d >= 0, d, 0))
+    return max(d, 0)
+
+
 @model(r'<(?:std::ops::)?Range<\w+> as IntoIterator>::into_iter')
 def range_into_iter(ex, args): return args[0]
 
@@ -1534,6 +1542,15 @@ def str_strip_char(ex, args, m):
     c = simp(eq(cs[0] if first else cs[-1], pat))
     if ex.decide(c) if is_sym(c) else c: return some(StrV(cs[1:] if first else cs[:-1]))
     return none()
+
+
+@model(r'(?:std::slice::|alloc::slice::|core::slice::)?<impl \[(?:std::string::)?String\]>::join::<&str>|(?:std::slice::|alloc::slice::)?<impl \[&str\]>::join::<&str>')
+def slice_join(ex, args):
+    items = as_slice(args[0]).elems(); sep = as_str(args[1]).chars; out = []
+    for i, it in enumerate(items):
+        if i: out += list(sep)
+        out += list(as_str(it).chars)
+    return StrV(out)
 
 
 @model(r'(?:core::str::|std::str::|alloc::str::)?<impl str>::replace::<char>')
